@@ -962,6 +962,18 @@ def intrinsic(interp, f, args, kwargs, node, frame):
         from . import sumtheory
         sumtheory.use_lemma(interp, args[0], list(args[1:]))
         return None
+    if n == "cnt":
+        arr, k, v = args
+        if interp.concrete:
+            return int(sum(1 for j in range(int(k)) if arr[j] == v))
+        from . import sumtheory
+        return sumtheory.cnt(ctx, arr, k, v)
+    if n == "count_def":
+        if interp.concrete:
+            return True
+        from . import sumtheory
+        arr, k = args
+        return mk(sumtheory.count_def(sumtheory.materialize_int(ctx, arr), lift(k)))
     if n == "ssum":
         # ssum(n, lambda i: term): the specification-level finite sum
         length, body = args
@@ -1084,6 +1096,11 @@ def _inv_env(interp, frame, spec, k, seq):
 def _check_inv(interp, frame, spec, k, seq, tag):
     c = spec["contract"]
     env = _inv_env(interp, frame, spec, k, seq)
+    if tag == "inv-init":
+        for clause in spec.get("unfold", []):
+            if not clause.strip().startswith(("count_def(", "sum_def(")):
+                raise OutsideSubset("loop `unfold` hints must be definitional unfoldings, got %r" % clause)
+            interp.ctx.assume(interp.registry.eval_clause(interp, clause, c, env))
     for j, clause in enumerate(spec["invariant"]):
         g = interp.registry.eval_clause(interp, clause, c, env)
         interp.ctx.oblige("%s/%s/%d/%d" % (tag, c.short, spec["ordinal"], j), g, clause=clause)
@@ -1093,6 +1110,11 @@ def _assume_inv(interp, frame, spec, k, seq):
     c = spec["contract"]
     env = _inv_env(interp, frame, spec, k, seq)
     for clause in spec["invariant"]:
+        interp.ctx.assume(interp.registry.eval_clause(interp, clause, c, env))
+    for clause in spec.get("unfold", []):
+        # only definitional unfoldings of specification functions may be assumed here
+        if not clause.strip().startswith(("count_def(", "sum_def(")):
+            raise OutsideSubset("loop `unfold` hints must be definitional unfoldings, got %r" % clause)
         interp.ctx.assume(interp.registry.eval_clause(interp, clause, c, env))
 
 
@@ -1294,3 +1316,23 @@ def np_column_stack(interp, cols):
             return r
         return cols[c].fn(i)
     return SArr((n, k), fn, "real")
+
+
+@model(np.zeros, np.ones)
+def np_zeros(interp, shape, dtype=float, **k):
+    raise OutsideSubset("np.zeros/np.ones with symbolic shape: use np_zeros_model")
+
+
+def _np_fill(value):
+    def f(interp, shape, dtype=float, **k):
+        if not isinstance(shape, tuple):
+            shape = (shape,)
+        dt = "int" if dtype in (int, np.int64, np.int32, "int") else ("bool" if dtype in (bool, np.bool_) else "real")
+        return SArr(shape, lambda *i: value, dt)
+    return f
+
+
+_MODELS[np.zeros] = _np_fill(0)
+_MODELS[np.ones] = _np_fill(1)
+_MODELS[np.zeros].__name__ = "np.zeros"
+_MODELS[np.ones].__name__ = "np.ones"
